@@ -356,6 +356,16 @@ def run_property(pid, units, validate_ops, selftests, bounds, assumptions, uncov
         if r.get('cex'):
             if r['cex']['case'].get('kind') == 'pair':
                 replay_pair(rep, pid, name, r['cex'])
+            elif r['cex']['case'].get('kind') == 'hash2env':
+                case = r['cex']['case']
+                line = 'hash2env %d %s %s' % (case['k'], ','.join(str(i % (1 << 40)) for i in sorted(set(i % (1 << 40) for i in case['ids']))) if len(set(i % (1 << 40) for i in case['ids'])) == case['k'] else ','.join(str(3 * i + 1) for i in range(case['k'])), case['tt'])
+                ans = driver_run([line], 'dev')[0]
+                path = save_replay(pid, dict(case, driver_line=line, driver_answer=ans, obligation=r['cex']['obligation']))
+                if ans.startswith('ok') and 'eq=1' in ans and 'hasheq=0' in ans:
+                    rep.violations.append(('hash:environment-dependent', 'the same function built in two environments compares equal but hashes differently (%s)' % line, path))
+                    print('CONFIRMED ' + line + ': ' + ans)
+                else:
+                    rep.inconclusive.append('%s: address-dependent hash did not show through the driver (%s)' % (name, ans[:80]))
             elif r['cex']['case'].get('kind') == 'symhash':
                 case = r['cex']['case']
                 n1 = ''.join(ch for ch in case['names'][0] if ch.isalnum()) or 'a'
